@@ -163,8 +163,8 @@ def history_job(args):
         else:
             zs.init_for_year(y)
             fresh.init_for_year(y)
-            a = [[tr.start_epoch_second, tr.offset_seconds + tr.delta_seconds, tr.abbrev] for tr in zs.transitions]
-            b = [[tr.start_epoch_second, tr.offset_seconds + tr.delta_seconds, tr.abbrev] for tr in fresh.transitions]
+            a = [[tr.startEpochSecond, tr.offsetSeconds + tr.deltaSeconds, tr.abbrev] for tr in zs.transitions]
+            b = [[tr.startEpochSecond, tr.offsetSeconds + tr.deltaSeconds, tr.abbrev] for tr in fresh.transitions]
         events.append([kind, y, zs.year])
         if a != b and len(bad) < 3:
             bad.append({'zone': name, 'step': k, 'kind': kind, 'arg': t, 'reused': a, 'fresh': b, 'opts': list(opts)})
